@@ -105,7 +105,14 @@ func (t *Ticket) Unmarshal(b []byte) error {
 
 // Marshal the Ticket.
 func (t *Ticket) Marshal() ([]byte, error) {
-	b, err := asn1.Marshal(*t)
+	// Only the wire fields are encoded: the decrypted part is not in the ASN.1 definition of a ticket (RFC 4120 5.3)
+	// and must never be sent.
+	b, err := asn1.Marshal(Ticket{
+		TktVNO:  t.TktVNO,
+		Realm:   t.Realm,
+		SName:   t.SName,
+		EncPart: t.EncPart,
+	})
 	if err != nil {
 		return nil, err
 	}
